@@ -59,23 +59,24 @@ func NewValidatorSet(vals []*Validator) *ValidatorSet {
 	return vs
 }
 
-// TODO: mind the overflow when times and votingPower shares too large.
+// TODO: mind the overflow when votingPower is too large.
+// IncrementAccum advances the proposer selection by `times` rounds, one round
+// at a time: incrementing by n yields the same accumulators and proposer as n
+// increments by one, so replicas that reach a round by skipping rounds agree
+// with those that went through every round.
 func (valSet *ValidatorSet) IncrementAccum(times int64) {
-	// Add VotingPower * times to each validator and order into heap.
-	validatorsHeap := gcmn.NewHeap()
-	for _, val := range valSet.Validators {
-		val.Accum += int64(val.VotingPower) * int64(times) // TODO: mind overflow
-		validatorsHeap.Push(val, accumComparable(val.Accum))
-	}
-
-	// Decrement the validator with most accum, times times.
-	for i := 0; i < int(times); i++ {
-		mostest := validatorsHeap.Peek().(*Validator)
-		if i == int(times-1) {
-			valSet.proposer = mostest
+	for i := int64(0); i < times; i++ {
+		// Add VotingPower to each validator and order into heap.
+		validatorsHeap := gcmn.NewHeap()
+		for _, val := range valSet.Validators {
+			val.Accum += int64(val.VotingPower) // TODO: mind overflow
+			validatorsHeap.Push(val, accumComparable(val.Accum))
 		}
+
+		// Decrement the validator with most accum.
+		mostest := validatorsHeap.Peek().(*Validator)
+		valSet.proposer = mostest
 		mostest.Accum -= int64(valSet.TotalVotingPower())
-		validatorsHeap.Update(mostest, accumComparable(mostest.Accum))
 	}
 }
 
